@@ -13,7 +13,9 @@ import (
 	"golang.org/x/tools/go/ssa"
 )
 
-func init() { register("C19", "core builtins and bundled package tables agree with their Go counterparts", checkC19) }
+func init() {
+	register("C19", "core builtins and bundled package tables agree with their Go counterparts", checkC19)
+}
 
 // builtin names the property statement lists, with the Go result type their contract implies.
 var c19Builtins = map[string]string{
